@@ -1,5 +1,7 @@
 // ===== prelude/rt_tokio.rs — tokio::task::JoinHandle<T>: Output = Result<T, JoinError>; dropping the handle detaches the task =====
 pub struct JoinError;
+impl JoinError { #[verifier::external_body] pub fn is_panic(&self) -> (r: bool) { unimplemented!() } #[verifier::external_body] pub fn into_panic(self) -> (r: AnyPanic) { unimplemented!() } }
+pub struct AnyPanic;
 impl<A: Actor> VFuture for RtHandle<A> {
     type Output = Result<DynResult<A>, JoinError>;
     open spec fn pre(&self, w: &World) -> bool { true }
